@@ -74,7 +74,7 @@ BOUNDS = {
         BoxLatCodes={ecode(l, b, 90) for l, b in _BLAT_Q},
         GenSeeds={1, 2}, GenMax=4, LawMax=3, LawLen=3,
         ScaleNs={1 << 20, (1 << 20) + 1000}, IdxScaleImax={1000000, 2000000}, SmpScaleNs={1000000},
-        CholScaleKs={1, 2, 4}, WldGrids={11}, WldPVals={0, 1, 2}, WldMaxCalls=3,
+        CholScaleKs={4}, WldGrids={11}, WldPVals={0, 1, 2}, WldMaxCalls=2,
         WldForms={"bound", "bound_call", "lambda", "closure", "table"}),
     "thorough": dict(
         XVals=set(range(0, 6)), MaxNodes=5, PVals={0, 1, 2, 3}, UDen=16, SmpKinds={"density", "cumulative"},
@@ -89,7 +89,7 @@ BOUNDS = {
         GenSeeds={1, 2, 3}, GenMax=6, LawMax=3, LawLen=4,
         ScaleNs={(1 << 20) - 1, 1 << 20, (1 << 20) + 1000, (1 << 21) + 7}, IdxScaleImax={1000000, 2000000, 3000017},
         SmpScaleNs={1000000, (1 << 20) + 1},
-        CholScaleKs={1, 2, 3, 4, 8}, WldGrids={11, 7, 54}, WldPVals={0, 1, 2}, WldMaxCalls=3,
+        CholScaleKs={2, 3, 4, 8}, WldGrids={11, 7, 54}, WldPVals={0, 1, 2}, WldMaxCalls=3,
         WldForms={"bound", "bound_call", "lambda", "closure", "table"}),
 }
 INVARIANTS = ["SmpTheorems", "SmpMechRefines", "CholFactorIsL0", "CholTheorems", "CholMechRefines", "CholScaleLaw", "WldFreshWorld",
@@ -470,7 +470,19 @@ def in_child(fn, *a):
 
 
 def ob_wld(c, meta):
-    out = in_child(wld_session, c, meta)
+    """the whole session in one process: a forked child of its own (fresh world) when meta["fresh"] (replays and the
+    confirmation of rejected sessions), else the worker process as it is (its earlier sessions are part of the world)"""
+    import esutil.random  # noqa  (imported - not used - before the fork: the child need not import it again)
+    import scipy.integrate  # noqa
+    if meta.get("fresh", True):
+        out = in_child(wld_session, c, meta)
+    else:
+        try:
+            out = ("ok", wld_session(c, meta))
+        except MachineryError:
+            raise
+        except Exception as e:  # noqa
+            out = ("err", errname(e), repr(e))
     o = {"k": 1, "form": c["form"]}
     if out[0] == "mach":
         raise MachineryError(out[1])
@@ -923,12 +935,16 @@ def work_from_export(exp, ctx):
                      [("legacy", "cum_table"), ("generator", "cum_func"), ("seed", "cum_table")])
             add("smpr", {"kind": c["kind"], "x": c["x"], "p": c["p"], "cum": c0["cum"], "n": 48},
                 {"conc": (i + 1) % len(SCONC), "kinds": kinds, "seed": seed * 100003 + i})
-    for i, c0 in enumerate(exp.get("WLD", [])):
-        add("wld", c0, {"conc": i % len(SCONC)})
+    # sessions: quick takes a third of the (pair x form x session) product - every pair of twin tables still runs
+    # through 3-4 of its 10 (form, session) combinations
+    for i, c0 in enumerate(sorted(exp.get("WLD", []), key=json_key)):
+        if not quick or i % 3 == 0:
+            add("wld", c0, {"conc": i % len(SCONC), "fresh": False})
     for i, c0 in enumerate(exp["CHOL"]):
         add("chol", c0, {"conc": i % NBASE, "entries": ["class", "func", "func_nomean", "class_scalar"]})
         # the same case transported along the scale ladder (law CholThmScale); both entry points that factorise
-        add("chol", c0, {"conc": NBASE + (i + i // len(CLADDER)) % len(CLADDER), "entries": ["class", "func"]})
+        if not quick or i % 2 == 0:
+            add("chol", c0, {"conc": NBASE + (i // 2 + i // (2 * len(CLADDER))) % len(CLADDER), "entries": ["class", "func"]})
     for i, c0 in enumerate(exp["IDX"]):
         add("idx", c0, {"srcs": ["seed", "generator", "legacy"], "seed": seed * 7919 + 31 * i})
     for i, c0 in enumerate(exp["BOX"]):
@@ -1124,7 +1140,24 @@ def judge(ctx, recs, what, leads=None, cap_per_sig=4):
                                   what=what)
     byid = {r["id"]: r for r in recs}
     emitted = {}
-    for rid in sorted(rejects):
+    # a session that ran in a worker's world (after that worker's earlier sessions) is a violation only if it is
+    # rejected again when re-executed alone in a fresh process - which is what the replay file will do
+    again = [rid for rid in sorted(rejects) if byid[rid]["op"] == "wld" and not byid[rid]["meta"].get("fresh", True)]
+    if again:
+        fresh = []
+        for rid in again[:40]:
+            r = byid[rid]
+            fresh.append(observe((rid, "wld", r["c"], dict(r["meta"], fresh=True))))
+        saved = ctx.traces
+        rej2 = tracecheck.validate(ctx, "SamplerTrace.tla", [{"id": r["id"], "op": r["op"], "c": r["c"], "obs": r["obs"]} for r in fresh],
+                                   what="re-judge rejected sessions re-executed in a fresh process", workers=1)
+        ctx.traces = saved
+        for r in fresh:
+            byid[r["id"]] = r
+        dropped = [rid for rid in again if rid not in rej2]
+        if dropped and leads is not None:
+            leads["lead_session_rejected_only_after_other_sessions_in_the_worker"] = len(dropped)
+        rejects = {rid: (rej2[rid] if rid in rej2 else v) for rid, v in rejects.items() if rid not in dropped}
         r = byid[rid]
         for cl, k in rejects[rid]:
             if cl in ("malformed_case", "unknown_op"):
@@ -1169,7 +1202,7 @@ def run(ctx):
             require=[a for a in ACTIONS if any(a.lower().startswith(f) for f in fams)], timeout=3000)
     # 1b. non-vacuity of the refinement checks: each deviating mechanism must violate its invariant
     small = dict(BOUNDS["quick"], DoExport=False, XVals={0, 1, 3, 4}, MaxNodes=4, PVals={0, 1}, UDen=4, CholMaxN=2, CholNs={2},
-                 ZSels={1}, CapLonCodes={ecode(10, 0)}, CapLatCodes={ecode(30, 0, 90)}, CapRadCodes={ecode(20, 0)})
+                 ZSels={1}, WldPVals={1, 2}, CholScaleKs={2}, CapLonCodes={ecode(10, 0)}, CapLatCodes={ecode(30, 0, 90)}, CapRadCodes={ecode(20, 0)})
     for fam, dev, inv in (("smp", {"XShift": 1}, "SmpMechRefines"), ("smp", {"Dedup": "unique_first"}, "SmpMechRefines"),
                           ("smp", {"Dedup": "none_strict"}, "SmpMechRefines"),
                           ("chol", {"Transposed": True}, "CholMechRefines"), ("cap", {"FixedRadius": False}, "CapMechRefines"),
@@ -1305,7 +1338,12 @@ def run(ctx):
                 "the laws TLC checks on the small scope (summary law for index selection, block law for pointwise sky clauses, "
                 "sorted-pairs law for monotonicity): random_indices on ranges 10^6..3*10^6 with n = range/10, randcap / randsphere "
                 "with 2^20-1 .. 2^21+7 points (direct, forced-rotated and polar, with and without radii, eq / xyz; summaries per "
-                "block of 2^18 points), Generator.sample with 10^6 draws; a case is distinct by (operation, abstract "
+                "block of 2^18 points), Generator.sample with 10^6 draws; plus the WORLD sessions exported from the wld machine "
+                "(two Generator objects of twin tables on one grid, handed over as the same bound method / __call__ of two "
+                "instances, lambdas / closures of one code object, or arrays; built and sampled interleaved, results scribbled "
+                "over by the caller; every sample call judged by the inverse-CDF clauses for ITS density) and every Cholesky "
+                "case transported along a scale ladder s = 2^-40 .. 2^40 (covariances 1e-24 .. 1e24, dense around 1e-8; law "
+                "CholThmScale checked by TLC on the integer scope); a case is distinct by (operation, abstract "
                 "case, concretisation) and non-trivial always" %
                 (B["MaxNodes"], sorted(B["XVals"]), sorted(B["PVals"]), len(SCONC), B["CholMaxN"], B["CholMaxN"],
                  sorted(B["LDiag"]), sorted(t - B["LOffShift"] for t in B["LOffP"]), sorted(B["CholNs"]), B["IdxMax"],
@@ -1333,6 +1371,11 @@ def run(ctx):
                        "failing each pointwise clause; sortedness of (deviate, value) pairs) whose sufficiency is a theorem of "
                        "Sampler.tla section 7 checked by TLC on all small sequences (family law); reproducibility of the large sky "
                        "draws is not re-checked",
+                       "world sessions run in a worker process after that worker's earlier sessions; a rejected session counts "
+                       "as a violation only if it is rejected again when re-executed alone in a fresh forked process (what the "
+                       "replay does) - otherwise it is reported as a lead",
+                       "only functions and bound methods are handed over as functional densities (what Generator documents and "
+                       "accepts); the caller does not modify x or p(x) arrays after construction (the statement is silent on it)",
                        "method='cut' (rejection sampling) is not the cumulative method of the statement and is not checked",
                        "which drawn deviate goes to which Cholesky sample is not stated: any arrangement is accepted",
                        "membership margins: box 1e-12 deg, cap 1e-9 deg; returned radius = separation to 1e-9 deg",
